@@ -72,6 +72,8 @@ def cols_of(f):
 
 def case_to_json(case):
     out = {"name": case["name"], "files": []}
+    if case.get("before"):
+        out["before"] = case_to_json({"name": case["name"], "files": case["before"]})["files"]
     for f in case["files"]:
         g = {k: f[k] for k in ("fname", "columns", "sort") if k in f}
         try:
@@ -92,6 +94,8 @@ def case_from_json(j):
         f = {"fname": g["fname"], "columns": g.get("columns"), "sort": g.get("sort")}
         f["body"] = g["body"].encode("utf-8") if "body" in g else bytes.fromhex(g["body_hex"])
         case["files"].append(f)
+    if j.get("before"):
+        case["before"] = case_from_json({"name": j["name"], "files": j["before"]})["files"]
     return case
 
 
@@ -281,8 +285,43 @@ def gen_case(rng, name, profile):
     if profile not in ("large", "growth", "growth_index") and rng.random() < 0.3:
         for k in range(rng.randint(1, 2)):
             extra = gen_syllables(rng, style, rng.randint(1, 4)) if rng.random() < 0.5 else []
-            files.append(gen_file(rng, "%s_i%d" % (name, k), sorted(set(syll + extra)), rng.randint(0, max(3, n // 2)), prof))
+            # the file names of the imports sort before, between and after the dictionary's own (the tables are read in
+            # the order they are listed, which is not the order of their names)
+            iname = rng.choice(["%s_i%d", "0%s_i%d", "%s.x%d", "zz%s%d", "%s_i%d"]) % (name, k if rng.random() < 0.5 else 9 - k)
+            files.append(gen_file(rng, iname, sorted(set(syll + extra)), rng.randint(0, max(3, n // 2)), prof))
     return {"name": name, "files": files, "profile": profile, "style": style}
+
+
+def edited_case(rng, case, name):
+    """the same dictionary after its sources were edited: `before` = the edition compiled first, `files` = the current one.
+    The edits are small and mostly near the end of a file (a row dropped, a weight changed, a row added)."""
+    ren = lambda fn: name if fn == case["name"] else fn.replace(case["name"], name)
+    before = [dict(f, fname=ren(f["fname"])) for f in case["files"]]
+    files = [dict(f) for f in before]
+    for _ in range(rng.choice([1, 1, 2])):
+        f = rng.choice(files)
+        lines = f["body"].split(b"\n")
+        rows = [i for i, l in enumerate(lines) if b"\t" in l and not l.startswith(b"#")]
+        if not rows:
+            continue
+        i = rows[-1] if rng.random() < 0.6 else rng.choice(rows)
+        kind = rng.choice(["drop", "dup", "weight", "text"])
+        cols = lines[i].split(b"\t")
+        ti, ci, wi = cols_of(f)
+        if kind == "drop":
+            del lines[i]
+        elif kind == "dup" and 0 <= ti < len(cols):
+            c2 = list(cols)
+            c2[ti] = "改".encode() + c2[ti]
+            lines.insert(i + 1 if rng.random() < 0.7 else len(lines), b"\t".join(c2))
+        elif kind == "weight" and 0 <= wi < len(cols) and cols[wi].strip().isdigit():
+            cols[wi] = str(int(cols[wi]) + rng.choice([1, 7, 1000])).encode()      # same length or longer
+            lines[i] = b"\t".join(cols)
+        elif 0 <= ti < len(cols) and cols[ti]:
+            cols[ti] = "异".encode() + cols[ti]
+            lines[i] = b"\t".join(cols)
+        f["body"] = b"\n".join(lines)
+    return {"name": name, "files": files, "before": before, "profile": "edited", "style": case.get("style")}
 
 
 # ------------------------------------------------------------------------------------------------ python reference (O)
@@ -470,16 +509,25 @@ class Runner:
         exe = self.exe if flavour == "san" else self.exe_plain
         self.n_ws += 1
         d = os.path.join(self.c.work, "ws%d" % self.n_ws)
+        t0 = time.time()
+        # a case with an earlier edition (`before`): that one is compiled first, then the sources are replaced and the
+        # dictionary is compiled again over the existing build (harness argument `+name`)
+        earlier = [case for case in cases if case.get("before")]
+        if earlier:
+            for case in earlier:
+                write_case(d, {"name": case["name"], "files": case["before"]})
+            vlib.sh([exe, d] + [case["name"] for case in earlier], env=vlib.SAN_ENV, timeout=3600)
+            self.harness_runs += 1
         for case in cases:
             write_case(d, case)
         names = [case["name"] for case in cases]
-        t0 = time.time()
+        arg_of = {case["name"]: ("+" if case.get("before") else "") + case["name"] for case in cases}
         res, logs, todo = {}, {}, list(names)
         single = False
         while todo:
             batch = todo[:1] if single else todo
             for attempt in range(4):
-                rc, out = vlib.sh([exe, d] + batch, env=vlib.SAN_ENV, timeout=3600)
+                rc, out = vlib.sh([exe, d] + [arg_of[n] for n in batch], env=vlib.SAN_ENV, timeout=3600)
                 if rc == 127 or "error while loading shared libraries" in out:
                     # librime.so is being re-linked by a concurrent build of the working tree: wait for that build (lock), retry
                     vlib.build_librime(flavour)
@@ -691,6 +739,8 @@ def with_lines(case, lines):
         if g["body"]:
             g["body"] += b"\n"
         out["files"].append(g)
+    if case.get("before"):
+        out["before"] = [dict(f) for f in case["before"]]
     return out
 
 
@@ -704,10 +754,13 @@ def shrink(run, case, clause, budget, flavour="san"):
 
     def fails(cs):
         evals[0] += 1
+        old = cs["name"]
         cs["name"] = "m%d" % evals[0]
-        cs["files"][0]["fname"] = cs["name"]
-        for k, f in enumerate(cs["files"][1:]):
-            f["fname"] = "%s_i%d" % (cs["name"], k)
+        for k, f in enumerate(cs["files"]):
+            # the names keep their shape (and with it their order as file names)
+            f["fname"] = cs["name"] if k == 0 else f["fname"].replace(old, cs["name"]) if old in f["fname"] else "%s_i%d" % (cs["name"], k - 1)
+        for k, f in enumerate(cs.get("before") or []):
+            f["fname"] = cs["files"][k]["fname"]
         im, sizes = run.impl([cs], flavour)
         bad, _ = monitor(cs, im[cs["name"]], sizes[cs["name"]])
         return any(cl in accept for cl, _ in bad)
@@ -772,7 +825,10 @@ def shrink(run, case, clause, budget, flavour="san"):
 
 
 def json_copy(case):
-    return {"name": case["name"], "files": [dict(f) for f in case["files"]]}
+    out = {"name": case["name"], "files": [dict(f) for f in case["files"]]}
+    if case.get("before"):
+        out["before"] = [dict(f) for f in case["before"]]
+    return out
 
 
 # ------------------------------------------------------------------------------------------------ the check
@@ -805,6 +861,10 @@ def plan(c):
         for _ in range(n):
             k += 1
             cases.append(gen_case(c.rng, "g%d" % k, prof))
+    # dictionaries whose sources are edited after a first compilation and compiled again over the existing build
+    pool = [cs for cs in cases if cs["profile"] in ("tiny", "small", "deep", "homophones", "medium")]
+    for j, cs in enumerate(c.rng.sample(pool, min(len(pool), 40 if quick else 300))):
+        cases.append(edited_case(c.rng, cs, "e%d" % j))
     return cases
 
 
@@ -893,7 +953,7 @@ def run(c):
                 stats["impl_failures"] += 1
                 info["flavour"] = "plain"
                 failing.append((case, bad, info))
-            else:
+            elif not case.get("before"):     # (a recompilation that finds nothing changed maps nothing read-write)
                 kbad = correspond_capacity(im[case["name"]], models.get(case["name"]), sizes[case["name"]])
                 stats["capacity_checks"] += 1 if "tmaps" in im[case["name"]]["flags"] else 0
                 if kbad:
